@@ -109,6 +109,9 @@ func H_ReplacedSibling() {
 		}
 		pre := lifeName(t.life)
 		vrt.Assert(by == t.by, "C04.wrong_producer", "node", k, ":", what, "was produced by the constructor of", by, "instead of", t.by)
+		if mode == 0 {
+			vrt.Assert(by == t.by, "C17.removed_output_used", "node", k, ":", what, "was produced by", by, ": an output removed from the collection still fills an identity after Build")
+		}
 		if by != t.by {
 			return
 		}
